@@ -155,6 +155,36 @@ def _prefix_swallows_op(node: qlast.Base, op: str) -> bool:
             return False
 
 
+def _is_printed_atomic(node: qlast.Base) -> bool:
+    """Check if *node* is printed as an AtomicExpr of the grammar.
+
+    This is what FOR requires of its iterator.  Only the expressions
+    that are printed without enclosing parentheses are of interest.
+    """
+    node = _skip_empty_shapes(node)
+    while isinstance(node, qlast.TypeCast):
+        # <T>AtomicExpr is atomic, but not <optional T> / <required T>.
+        if node.cardinality_mod is not None:
+            return False
+        node = _skip_empty_shapes(node.expr)
+    if isinstance(node, qlast.Constant):
+        return (
+            node.kind is qlast.ConstantKind.STRING
+            or not node.value.startswith('-')
+        )
+    return not isinstance(
+        node,
+        (
+            qlast.UnaryOp,
+            qlast.DetachedExpr,
+            qlast.GlobalExpr,
+            qlast.Introspect,
+            qlast.Indirection,
+            qlast.Shape,
+        ),
+    )
+
+
 class EdgeQLSourceGeneratorError(errors.InternalServerError):
     pass
 
@@ -412,7 +442,12 @@ class EdgeQLSourceGenerator(codegen.SourceGenerator):
             self._write_keywords('OPTIONAL ')
         self.write(ident_to_str(node.iterator_alias))
         self._write_keywords(' IN ')
-        self.visit(node.iterator)
+        if _is_printed_atomic(node.iterator):
+            self.visit(node.iterator)
+        else:
+            self.write('(')
+            self.visit(node.iterator)
+            self.write(')')
         # guarantee an newline here
         self.new_lines = 1
         if node.has_union:
